@@ -105,8 +105,8 @@ def main(ctx, cases=None):
                     continue
                 table[sw] = asym([pl.unhex(x) for x in a], [pl.unhex(x) for x in bb], r.nA, r.nB)
             for f_id, sw in ATTRIBUTION:
-                if sw in table and table[sw] <= tol:
-                    fid = f_id
+                if sw in table and table[sw] <= tol and proofs_ok and not corr_bad:
+                    fid = f_id      # (never attributed when model and code disagree: the model's counterfactuals then say nothing about the code)
                     break
             out.append({"case": r.case, "request": pl.fmt_case(r.case), "error": d, "allowed": tol, "attributed_to": fid, "counterfactual_asymmetry": table,
                         "what": "block (LA=%d, LB=%d, ECP L=%d, %s) and the transpose of the block with the shells exchanged differ by %.3g (allowed %.3g)" % (
